@@ -96,6 +96,11 @@ def run(chk):
     if not thorough:
         # every short text (header statements, units, single statements) and every third of the longer ones
         base = [c for c in base if len(c["toks"]) <= 40] + [c for c in base if len(c["toks"]) > 40][::3]
+    # (the work of the prefix family is quadratic in the length of a text: of the texts of several thousand characters — long
+    # quoted strings, long BEGINEXT bodies — two are enough here; all of them are in the fault family above)
+    nchars = lambda c: sum(len(str(t.get("v", ""))) + 1 for t in c["toks"])
+    longs = [c for c in base if nchars(c) > 1500]
+    base = [c for c in base if nchars(c) <= 1500] + longs[:2]
     pc = [{"id": c["id"], "toks": c["toks"], "sep": s} for c in base for s in ((0, 4) if not thorough else (0, 1, 3, 4))]
     npre = 0
     for q in vlib.harness("lef_prefixes", pc, W, timeout_ms=60000):
